@@ -256,7 +256,7 @@ def _worker_path(args):
         out['dropped'] = sorted(ex.dropped)
         out['feas'] = ex.ch.feas_checks
         import zlib
-        keep_canary = zlib.crc32(repr(prefix).encode()) % 8 == 0 or not prefix
+        keep_canary = zlib.crc32(repr(prefix).encode()) % 6 == 0 or len(prefix) <= 4
         obls = ex.obligations + (res.canaries if keep_canary else [])
         smt._OBLS, smt._AXIOMS, smt._TIMEOUT_MS = obls, axioms + smt.literal_axioms(), timeout_ms
         for i, ob in enumerate(obls):
